@@ -28,6 +28,7 @@ using std::optional;
 #else
 
 #include <type_traits>
+#include <utility>
 
 namespace datasketches {
 
@@ -114,7 +115,8 @@ public:
 
   template<typename... Args>
   void emplace(Args&&... args) noexcept(std::is_nothrow_constructible<T, Args...>::value) {
-    new (&value_) T(args...);
+    reset(); // as std::optional does: a contained value is destroyed first
+    new (&value_) T(std::forward<Args>(args)...);
     initialized_ = true;
   }
 
